@@ -122,6 +122,35 @@ fn locally_failed(net: &Net, a: usize, p: Option<usize>) -> bool {
 	net.events[a].iter().any(|e| match e { lightning::events::Event::PaymentPathFailed { payment_hash, .. } => *payment_hash == h, lightning::events::Event::PaymentFailed { payment_hash: Some(ph), .. } => *ph == h, _ => false })
 }
 
+/// Deterministic replay of known finding KF-C01-1 (see /verif/known_findings.txt): the NON-funder's reported
+/// send limit lets it send a non-dust HTLC whenever the funder can pay `fee(n+1) + reserve`, but the funder's
+/// `can_accept_incoming_htlc` needs `fee(n+2)` (fee-spike-buffer HTLC) and fails the HTLC back.
+fn probe_fundee_limit() -> Option<String> {
+	let cfg = Some(lightning::ln::functional_test_utils::test_legacy_channel_config());
+	let mut net = Net::new(2, vec![cfg.clone(), cfg]);
+	let c = net.open(0, 1, 100_000, 50_000_000);
+	for _ in 0..2 { let p = net.send(&[0, 1], &[c], 19_160_000, 80).ok()?; net.settle(8); net.claim(p); net.settle(8); }
+	for i in 0..2 { *net.nodes[i].fee_estimator.sat_per_kw.lock().unwrap() = 10_000; }
+	net.nodes[0].node.timer_tick_occurred(); net.pump(0);
+	net.settle(8);
+	let mut out = None;
+	for k in 0..3 {
+		let d = net.nodes[1].node.list_channels();
+		let (lim, min) = (d[0].next_outbound_htlc_limit_msat, d[0].next_outbound_htlc_minimum_msat);
+		let amt = 7_500_000u64;
+		if !(min <= amt && amt <= lim) { break; }
+		let p = net.send(&[1, 0], &[c], amt, 80).ok()?;
+		net.settle(8);
+		let h = net.pays[p].hash;
+		let accepted = net.claimable[0].iter().any(|x| x.0 == h);
+		let reason = net.trace.iter().rev().find_map(|o| if let Obs::Event { node: 0, text } = o { if text.starts_with("HTLCHandlingFailed") { Some(text.clone()) } else { None } } else { None }).unwrap_or_default();
+		if !accepted && !(reason.contains("ChannelBalanceOverdrawn") || reason.contains("FeeSpikeBuffer")) { out = Some(format!("fundee-limit probe: HTLC inside the limits failed back for an unexpected reason: {}", reason)); break; }
+		if !accepted { out = Some(format!("KF-C01-1 fundee limit ignores the funder's fee-spike-buffer HTLC: HTLC #{} of {} msat inside the reported limits [{}, {}] of the non-funder (100000 sat legacy channel, feerate {:?}, funder balance 11680 sat) was failed back by the peer", k + 1, amt, min, lim, d[0].feerate_sat_per_1000_weight)); break; }
+	}
+	std::mem::forget(net);
+	out
+}
+
 fn nm(i: usize) -> &'static str { if i == 0 { "a" } else { "b" } }
 
 fn main() {
@@ -131,6 +160,9 @@ fn main() {
 	let mut rng = Rng::new(args.seed);
 	let n_scen = if args.thorough { 400 } else { 24 } * args.scale as usize;
 	let mut reached_in: BTreeMap<String, u64> = BTreeMap::new();
+	if args.model == "chan" {
+		match guarded(std::panic::AssertUnwindSafe(probe_fundee_limit)) { Ok(Some(m)) => rec.oracle_fail(m), Ok(None) => { rec.notes.insert("kf_c01_1".into(), "probe did not reproduce KF-C01-1 on this tree".into()); }, Err(p) => rec.oracle_fail(format!("fundee-limit probe panicked: {}", p.chars().take(200).collect::<String>())) }
+	}
 	for sc in 0..n_scen {
 		let steps = if args.thorough { 60 + rng.below(200) as usize } else { 40 + rng.below(80) as usize };
 		let async_persist = sc % 2 == 1;
